@@ -224,4 +224,60 @@ func rulesC11(c *Ctx) {
 			c.Fail("C11.outcome", fnFinalizeBlk+":roots", c.P.Pos(fn.Pos()), "finalizeBlock no longer sets roots")
 		}
 	}
+	// every finalized block, whatever its type, leaves a fresh (or no) commitment pool: votes never survive a round
+	if fn := c.needFn("C11.reset", fnFinalizeBlk); fn != nil {
+		st := StoresTo(fn, "rtState.CommitmentPool=", "roothash/api.RuntimeState.CommitmentPool")
+		okVals := !st.Empty()
+		for _, in := range st.Ins {
+			v := in.(*ssa.Store).Val
+			s := vstr(v)
+			if !(isNilConst(v) || s == "roothash/api/commitment.NewPool()") {
+				okVals = false
+				c.Fail("C11.reset", fnFinalizeBlk+":pool value", c.P.InstrPos(in), "the commitment pool is set to "+vstrShort(v)+" rather than to a fresh pool or nil")
+			}
+		}
+		if okVals {
+			hit := Reach(fn, nil, nil, anyOf(SuccessReturns(fn)), NewCut().AddInstr(st.Ins...))
+			// rearmRoundTimeout is a tail call: its call site counts as the success exit too
+			if hit == nil {
+				for _, call := range CallsTo(fn, "rearmRoundTimeout", "consensus/cometbft/apps/roothash.rearmRoundTimeout", "").Calls() {
+					if Reach(fn, nil, nil, isInstr(call), NewCut().AddInstr(st.Ins...)) != nil {
+						hit = call
+					}
+				}
+			}
+			site := c.P.Pos(fn.Pos())
+			if hit != nil {
+				site = c.P.InstrPos(hit)
+			}
+			c.Check(hit == nil, "C11.reset", fnFinalizeBlk+":every finalized block resets the commitment pool", site, "every path through finalizeBlock replaces the pool by a fresh one (or nil for suspended runtimes)", "a block can be finalized without replacing the commitment pool: commitments of the interrupted round would be counted in the next round (possibly against a different committee)")
+		}
+	}
+	// a commitment is for the next round of the block it builds on, exactly
+	if fn := c.needFn("C11.chain", "roothash/api/commitment.(*ComputeResultsHeader).IsParentOf"); fn != nil {
+		var yes []ssa.Instruction
+		okShape := true
+		for _, r := range Returns(fn) {
+			k, isK := r.Results[0].(*ssa.Const)
+			if isK && k.Value != nil && vstr(k) == "false" {
+				continue
+			}
+			yes = append(yes, r)
+			if !strings.Contains(vstr(r.Results[0]), "hash.(*Hash).Equal(param:h.PreviousHash,") || !strings.Contains(vstr(r.Results[0]), "EncodedHash(param:child)") {
+				okShape = false
+			}
+		}
+		c.Check(okShape && len(yes) > 0, "C11.chain", fname(fn)+":true only if PreviousHash == hash(child)", c.P.Pos(fn.Pos()), "a header is a parent only if its previous hash is the child header's hash", "IsParentOf can answer true without comparing PreviousHash with the child header's hash")
+		c.GuardedByAny("C11.chain", fn, "h.Round == child.Round+1", []string{`^\*param:h\.Round == \(\*param:child\.Round \+ 1\)$`}, Ev{Name: "non-false result", Fn: fn, Ins: yes}, "a commitment is valid only for exactly the next round; the round number selects the scheduler ranks")
+	}
+	if fn := c.needFn("C11.chain", fnVerifyEC); fn != nil {
+		// the literal `return nil` exits (p2pError.Permanent(err) under err != nil is a failure the nil-analysis cannot see)
+		var nilRets []ssa.Instruction
+		for _, r := range Returns(fn) {
+			if ev := retErrVal(r); ev != nil && isNilConst(ev) {
+				nilRets = append(nilRets, r)
+			}
+		}
+		c.GuardedByAny("C11.chain", fn, "commit header IsParentOf(current block)", []string{`^roothash/api/commitment\.\(\*ComputeResultsHeader\)\.IsParentOf\(param:commit\.Header\.Header,param:blk\.Header\)$`}, Ev{Name: "return nil", Fn: fn, Ins: nilRets}, "only commitments for the next round of the current block are admitted")
+	}
 }
